@@ -117,3 +117,54 @@ Example compile_idempotent_refuted_taking_write_to :
   /\ map code
       (run_session gen_bfacts false (fresh_builder ex_inp) 700 300 [300; 700]) = [0; 3].
 Proof. vm_compute. repeat split. Qed.
+
+(* ---- header ---- *)
+From SudachiVerif Require Import Model.BuildHistory.
+
+Definition kanji (n : nat) : list N := repeat 36766%N n.    (* U+8F9E, three UTF-8 bytes *)
+
+(* 85 kanji = 255 bytes fit, 86 kanji = 258 bytes (86 characters!) do not; 256 ASCII bytes fit, 257 do not *)
+Example ex_header_boundaries :
+  map (fun d => match header 7 9 d with Ok bs => Z.of_nat (List.length bs) | Err => -1 | Panic => -2 end)
+      [[]; kanji 85; kanji 86; repeat 100%N 256; repeat 100%N 257; kanji 85 ++ [100%N]; kanji 85 ++ [233%N]]
+  = [272; 272; -1; 272; -1; 272; -1].
+Proof. vm_compute. reflexivity. Qed.
+
+Example ex_header_roundtrip :
+  match header (header_version false) 1700000000 (kanji 3 ++ [97; 98]%N) with
+  | Ok bs => header_parse gen_hfacts (bs ++ [1; 2; 3]%N) | _ => None end
+  = Some (header_version false, 1700000000%N, utf8 (kanji 3 ++ [97; 98]%N)).
+Proof. vm_compute. reflexivity. Qed.
+
+(* a guard that counts characters with a clamped padding: success with a shifted layout (258 + 16 bytes instead of 272) *)
+Example header_layout_refuted_char_count :
+  header_write (mkHFacts false (mkG CastNone CGt (OConst 256)) 256 272 false) 7 9 (kanji 86)
+  = Ok (le_bytes 8 7 ++ le_bytes 8 9 ++ utf8 (kanji 86)).
+Proof. vm_compute. reflexivity. Qed.
+
+(* ---- call histories ---- *)
+Definition m22 : list cline := [[TNum 2; TNum 2]; [TNum 0; TNum 0; TNum 1]].
+Definition m55 : list cline := [[TNum 5; TNum 5]; [TNum 4; TNum 4; TNum 3]].
+Definition codeh (r : res (option dict)) : Z :=
+  match r with Ok None => 0 | Ok (Some d) => if dict_valid d then 1 else 3 | Err => -1 | Panic => -2 end.
+
+(* non-vacuity: rows after resolve, a smaller matrix after a success, a matrix failing at a line, repeated compiles *)
+Example ex_history :
+  map codeh (history init_system
+    [OConn m55; OLex [row 4 4 [] true]; OResolve; OCompile; OLex [row 0 0 [] true]; OCompile;
+     OConn m22; OCompile; OConn (m55 ++ [[TBad]]); OCompile; OConn [[TNum 1; TBad]]; OCompile])
+  = [0; 0; 0; 1; 0; 1; 0; -1; -1; 1; -1; 1].
+Proof. vm_compute. reflexivity. Qed.
+
+(* a read_conn that leaves the old limits behind when it fails half-way (limits_follow_on_error = false): the following
+   compile validates against the 5x5 matrix and writes the 2x2 one *)
+Example history_success_means_valid_refuted_stale_limits :
+  map codeh (run_history gen_bfacts false true init_system
+    [OConn m55; OLex [row 4 4 [] true]; OConn (m22 ++ [[TBad]]); OCompile]) = [0; 0; -1; 3].
+Proof. vm_compute. reflexivity. Qed.
+
+(* a user-dictionary builder whose limits follow a matrix read into it (user_limits_fixed = false) *)
+Example history_success_means_valid_refuted_user_matrix :
+  map codeh (run_history gen_bfacts true false (init_user 4 3 6)
+    [OConn [[TNum 10; TNum 10]]; OLex [row 9 9 [] true]; OCompile]) = [0; 0; 3].
+Proof. vm_compute. reflexivity. Qed.
